@@ -57,7 +57,16 @@ func runC10(r *lib.Run) {
 	r.Assume("a SetNode error on a type-correct payload is not judged here (C02/C16/C18 own encoding acceptance); at least half of the sets must succeed")
 	n := r.N(200, 6000)
 	okSets, allSets := 0, 0
-	for _, cfg := range cfgsFor(r, quick3) {
+	cfgs := cfgsFor(r, quick3)
+	if r.Quick() {
+		for _, nm := range lib.Names() {
+			if nm == "vtk/U-simple" {
+				cfgs = append(cfgs, lib.Get(nm))
+			}
+		}
+	}
+	for _, cfg := range cfgs {
+		r.Hit("configuration:" + cfg.Name)
 		for i := 0; i < n; i++ {
 			if skip(cfg, i) {
 				continue
@@ -204,7 +213,7 @@ func runC10(r *lib.Run) {
 	if allSets > 0 && okSets*2 < allSets {
 		r.Inconclusive(fmt.Sprintf("only %d of %d SetNode calls succeeded", okSets, allSets))
 	}
-	r.RequireCov("setnode-ok", "form:scalar", "form:json_ietf")
+	r.RequireCov("configuration:vtk/U-simple", "setnode-ok", "form:scalar", "form:json_ietf")
 }
 
 func isSubsequence(sub, full []string) bool {
